@@ -365,6 +365,8 @@ class RefServer:
                     if self.cookie_mode != 'no-keyring':
                         os.makedirs(self.keyring, mode=0o700, exist_ok=True)
                         with open(os.path.join(self.keyring, 'org_verif_ref'), 'wb') as f:
+                            # (another implementation picks ids at random and appends: the file is in no particular order)
+                            f.write(b'2300 ' + str(int(__import__('time').time())).encode() + b' ' + b'ab' * 24 + b'\n')
                             f.write(b'7 1 ' + b'00' * 8 + b'\n')
                             f.write(b'11 ' + str(int(__import__('time').time())).encode() + b' ' + self.cookie + b'\n')
                     self.challenge = binascii.hexlify(hashlib.sha1(b'chal' + self.nonce).digest())
